@@ -18,9 +18,38 @@ func (fr *Frame) nativeModel(instr ssa.Instruction, full string, callee *ssa.Fun
 		c.sc.assert(tImp(reach, mk(SBool, "(>= %s %s)", n.S, prev.S)))
 		c.sc.assert(tImp(reach, mk(SBool, "(> %s 0)", n.S)))
 		c.set(st, "G:$now", n)
+		calls := c.get(st, "G:$nowcalls", SInt)
+		c.set(st, "G:$nowcalls", mk(SInt, "(+ %s 1)", calls.S))
 		return scalar(n, rt), true
 	case "(time.Time).UTC", "(time.Time).Local":
 		return &Val{T: args[0].T, Typ: rt}, true
+	case "(net/url.Values).Del", "(net/http.Header).Del":
+		mt := callee.Signature.Recv().Type()
+		if err := c.mapDelete(st, args[0].T, mt, args[1].T); err != nil {
+			return nil, false
+		}
+		return &Val{Typ: rt}, true
+	case "(net/url.Values).Set":
+		mt := callee.Signature.Recv().Type()
+		v := scalar(c.mkSlice(SStr, []*Term{args[2].T}), types.NewSlice(types.Typ[types.String]))
+		if err := c.mapUpdate(st, args[0].T, mt, args[1].T, v); err != nil {
+			return nil, false
+		}
+		return &Val{Typ: rt}, true
+	case "(net/url.Values).Add":
+		mt := callee.Signature.Recv().Type()
+		old, _, err := c.mapLookup(st, args[0].T, mt, args[1].T)
+		if err != nil {
+			return nil, false
+		}
+		n := c.sc.freshConst("vals_add", SSl)
+		at := atFun(c, SStr)
+		c.sc.assert(tImp(reach, mk(SBool, "(and (= (slen %s) (+ (slen %s) 1)) (= (%s %s (slen %s)) %s) (forall ((i Int)) (! (=> (and (<= 0 i) (< i (slen %s))) (= (%s %s i) (%s %s i))) :pattern ((%s %s i)))))",
+			n.S, old.T.S, at, n.S, old.T.S, args[2].T.S, old.T.S, at, n.S, at, old.T.S, at, n.S)))
+		if err := c.mapUpdate(st, args[0].T, mt, args[1].T, scalar(n, types.NewSlice(types.Typ[types.String]))); err != nil {
+			return nil, false
+		}
+		return &Val{Typ: rt}, true
 	}
 	return nil, false
 }
